@@ -106,6 +106,9 @@ func (h *killedHandler) cleanupIfNotRestarting() {
 		ActorRef: h.ctx.ref,
 		Type:     reflect.TypeOf(h.ctx.actor),
 	})
+
+	// Actor 可能是在邮箱被暂停（等待监督决策）期间被终止的：恢复邮箱，使其中积压的用户消息得以排空并进入死信，而不是永久滞留
+	h.ctx.mailbox.Resume()
 }
 
 // cleanupScheduler 清理调度器
